@@ -97,24 +97,21 @@ theorem cmp_cases (mean rf : Rat) :
 theorem sharpe_calculate_agrees (rf mean sd : Rat) (p : Interval) :
     ofSharpe (Generated.Machines.SharpeRatio.calculate rf mean sd p) = SharpeRatio.calculate rf mean sd p := by
   by_cases h : sd = 0 <;>
-    simp [Generated.Machines.SharpeRatio.calculate, SharpeRatio.calculate, ofSharpe, h, max_agrees,
-      Generated.Machines.Decimal.checked_div]
+    simp [gen_metrics, SharpeRatio.calculate, ofSharpe, h, max_agrees, Generated.Machines.Decimal.checked_div]
 
 theorem sortino_calculate_agrees (rf mean sd : Rat) (p : Interval) :
     ofSortino (Generated.Machines.SortinoRatio.calculate rf mean sd p) = SortinoRatio.calculate rf mean sd p := by
   by_cases h : sd = 0
   · rcases cmp_cases mean rf with ⟨h1, h2, hc⟩ | ⟨h1, hc⟩ | ⟨h1, h2, hc⟩ <;>
-      simp_all [Generated.Machines.SortinoRatio.calculate, SortinoRatio.calculate, ofSortino, max_agrees, min_agrees]
-  · simp [Generated.Machines.SortinoRatio.calculate, SortinoRatio.calculate, ofSortino, h,
-      Generated.Machines.Decimal.checked_div]
+      simp_all [gen_metrics, SortinoRatio.calculate, ofSortino, max_agrees, min_agrees]
+  · simp [gen_metrics, SortinoRatio.calculate, ofSortino, h, Generated.Machines.Decimal.checked_div]
 
 theorem calmar_calculate_agrees (rf mean dd : Rat) (p : Interval) :
     ofCalmar (Generated.Machines.CalmarRatio.calculate rf mean dd p) = CalmarRatio.calculate rf mean dd p := by
   by_cases h : dd = 0
   · rcases cmp_cases mean rf with ⟨h1, h2, hc⟩ | ⟨h1, hc⟩ | ⟨h1, h2, hc⟩ <;>
-      simp_all [Generated.Machines.CalmarRatio.calculate, CalmarRatio.calculate, ofCalmar, max_agrees, min_agrees]
-  ·     simp [Generated.Machines.CalmarRatio.calculate, CalmarRatio.calculate, ofCalmar, h,
-      Generated.Machines.Decimal.checked_div, abs_agrees]
+      simp_all [gen_metrics, CalmarRatio.calculate, ofCalmar, max_agrees, min_agrees]
+  ·     simp [gen_metrics, CalmarRatio.calculate, ofCalmar, h, Generated.Machines.Decimal.checked_div, abs_agrees]
 
 theorem rate_calculate_agrees (mean : Rat) (p : Interval) :
     ofRate (Generated.Machines.RateOfReturn.calculate mean p) = RateOfReturn.calculate mean p := rfl
@@ -147,9 +144,7 @@ theorem sharpe_scale_agrees (sqrt : Rat → Option Rat) (hs : SqrtTotal sqrt) (m
   obtain ⟨y, hy⟩ := hs _ (periods_nonneg m.interval target)
   have hf : fnOf sqrt (periods m.interval target) = y := by simp [fnOf, hy]
   rw [hf] at hfit
-  simp only [Generated.Machines.SharpeRatio.scale, SharpeRatio.scale, Metric.scaleWith, ofSharpe, toSharpe, hf,
-    checkedMul_of_fits hfit, Option.getD_some, checked_div_agrees, abs_agrees, dict, max_agrees,
-    Generated.Machines.Decimal.checked_mul]
+  simp only [gen_metrics, SharpeRatio.scale, Metric.scaleWith, ofSharpe, toSharpe, hf, checkedMul_of_fits hfit, Option.getD_some, checked_div_agrees, abs_agrees, dict, max_agrees, Generated.Machines.Decimal.checked_mul]
   unfold periods Interval.secs numSeconds at hy
   generalize checkedDiv _ _ = cd at hy ⊢
   cases cd <;> simp only [Option.getD_none, Option.getD_some] at hy <;> simp [hy]
@@ -161,9 +156,7 @@ theorem sortino_scale_agrees (sqrt : Rat → Option Rat) (hs : SqrtTotal sqrt) (
   obtain ⟨y, hy⟩ := hs _ (periods_nonneg m.interval target)
   have hf : fnOf sqrt (periods m.interval target) = y := by simp [fnOf, hy]
   rw [hf] at hfit
-  simp only [Generated.Machines.SortinoRatio.scale, SortinoRatio.scale, Metric.scaleWith, ofSortino, toSortino, hf,
-    checkedMul_of_fits hfit, Option.getD_some, checked_div_agrees, abs_agrees, dict, max_agrees,
-    Generated.Machines.Decimal.checked_mul]
+  simp only [gen_metrics, SortinoRatio.scale, Metric.scaleWith, ofSortino, toSortino, hf, checkedMul_of_fits hfit, Option.getD_some, checked_div_agrees, abs_agrees, dict, max_agrees, Generated.Machines.Decimal.checked_mul]
   unfold periods Interval.secs numSeconds at hy
   generalize checkedDiv _ _ = cd at hy ⊢
   cases cd <;> simp only [Option.getD_none, Option.getD_some] at hy <;> simp [hy]
@@ -175,9 +168,7 @@ theorem calmar_scale_agrees (sqrt : Rat → Option Rat) (hs : SqrtTotal sqrt) (m
   obtain ⟨y, hy⟩ := hs _ (periods_nonneg m.interval target)
   have hf : fnOf sqrt (periods m.interval target) = y := by simp [fnOf, hy]
   rw [hf] at hfit
-  simp only [Generated.Machines.CalmarRatio.scale, CalmarRatio.scale, Metric.scaleWith, ofCalmar, toCalmar, hf,
-    checkedMul_of_fits hfit, Option.getD_some, checked_div_agrees, abs_agrees, dict, max_agrees,
-    Generated.Machines.Decimal.checked_mul]
+  simp only [gen_metrics, CalmarRatio.scale, Metric.scaleWith, ofCalmar, toCalmar, hf, checkedMul_of_fits hfit, Option.getD_some, checked_div_agrees, abs_agrees, dict, max_agrees, Generated.Machines.Decimal.checked_mul]
   unfold periods Interval.secs numSeconds at hy
   generalize checkedDiv _ _ = cd at hy ⊢
   cases cd <;> simp only [Option.getD_none, Option.getD_some] at hy <;> simp [hy]
@@ -185,9 +176,7 @@ theorem calmar_scale_agrees (sqrt : Rat → Option Rat) (hs : SqrtTotal sqrt) (m
 /-- `RateOfReturn::scale`: linear, no root. -/
 theorem rate_scale_agrees (m : Metric) (target : Interval) (hfit : Fits m.value (periods m.interval target)) :
     ofRate (Generated.Machines.RateOfReturn.scale dict dict (toRate m) target) = RateOfReturn.scale m target := by
-  simp only [Generated.Machines.RateOfReturn.scale, RateOfReturn.scale, Metric.scaleWith, ofRate, toRate, id,
-    checkedMul_of_fits hfit, Option.getD_some, checked_div_agrees, abs_agrees, dict, max_agrees,
-    Generated.Machines.Decimal.checked_mul]
+  simp only [gen_metrics, RateOfReturn.scale, Metric.scaleWith, ofRate, toRate, id, checkedMul_of_fits hfit, Option.getD_some, checked_div_agrees, abs_agrees, dict, max_agrees, Generated.Machines.Decimal.checked_mul]
   unfold periods Interval.secs numSeconds
   generalize checkedDiv _ _ = cd
   cases cd <;> simp
